@@ -1,0 +1,93 @@
+//go:build verif
+
+package method
+
+// Contracts for package method (comment-only; checked by /verif/engine).
+
+// ---- C14: role of parameter j of signature sig under the parse options ----
+//@ pred PName(sig *types.Signature, j int) string = sig.Params().At(j).Name()
+//@ pred IsIface(sig *types.Signature, opts *ParseOpts, j int) bool = types.Identical(types.Unalias(sig.Params().At(j).Type()), opts.Converter)
+//@ pred IsTarget(sig *types.Signature, opts *ParseOpts, j int) bool = !IsIface(sig, opts, j) && opts.UpdateParam != "" && PName(sig, j) == opts.UpdateParam
+//@ pred IsCtx(sig *types.Signature, opts *ParseOpts, lo LocalOpts, j int) bool = !IsIface(sig, opts, j) && !IsTarget(sig, opts, j)
+//@     && ((opts.ContextMatch != nil && opts.ContextMatch.MatchString(PName(sig, j))) || lo.Context[PName(sig, j)])
+//@ pred Plain(sig *types.Signature, opts *ParseOpts, lo LocalOpts, j int) bool = !IsIface(sig, opts, j) && !IsTarget(sig, opts, j) && !IsCtx(sig, opts, lo, j)
+// role class of parameter j: interface > update target > context > (additional) source
+//@ pred RoleClassOK(sig *types.Signature, opts *ParseOpts, lo LocalOpts, j int, use ArgUse) bool =
+//@        (IsIface(sig, opts, j) ==> use == ArgUseInterface)
+//@     && (IsTarget(sig, opts, j) ==> use == ArgUseTarget)
+//@     && (IsCtx(sig, opts, lo, j) ==> use == ArgUseContext)
+//@     && (Plain(sig, opts, lo, j) ==> use == ArgUseSource || use == ArgUseMultiSource)
+
+//@ func isError
+//@   props C14
+//@   pure
+//@   requires obj != nil
+//@   ensures result == (dynIs[*types.Named](obj.Type()) && unboxed[*types.Named](obj.Type()).Obj().Name() == "error" && unboxed[*types.Named](obj.Type()).Obj().Pkg() == nil)
+
+//@ func Parse
+//@   props C14 C10 C06
+//@   requires obj != nil && opts != nil
+//@   assigns nothing
+//@   ensures err == nil ==> result != nil && isFresh(result)
+//@   ensures err != nil ==> result == nil
+//@   ensures err == nil ==> xtype.Accessible(obj, opts.OutputPackagePath) && dynIs[*types.Signature](obj.Type())
+// every parameter is recorded, in declared order, with its role
+//@   ensures err == nil ==> len(result.RawArgs) == unboxed[*types.Signature](obj.Type()).Params().Len()
+//@   ensures err == nil ==> (forall j int :: 0 <= j && j < len(result.RawArgs) ==> result.RawArgs[j].Name == PName(unboxed[*types.Signature](obj.Type()), j) && result.RawArgs[j].Type != nil)
+//@   ensures err == nil ==> (forall j int :: 0 <= j && j < len(result.RawArgs) ==> (IsIface(unboxed[*types.Signature](obj.Type()), opts, j) ==> result.RawArgs[j].Use == ArgUseInterface))
+//@   ensures err == nil ==> (forall j int :: 0 <= j && j < len(result.RawArgs) ==> (IsTarget(unboxed[*types.Signature](obj.Type()), opts, j) ==> result.RawArgs[j].Use == ArgUseTarget))
+//@   ensures err == nil ==> (forall j int :: 0 <= j && j < len(result.RawArgs) ==> (IsCtx(unboxed[*types.Signature](obj.Type()), opts, localOpts, j) ==> result.RawArgs[j].Use == ArgUseContext))
+//@   ensures err == nil ==> (forall j int :: 0 <= j && j < len(result.RawArgs) ==> (Plain(unboxed[*types.Signature](obj.Type()), opts, localOpts, j) ==> result.RawArgs[j].Use == ArgUseSource || result.RawArgs[j].Use == ArgUseMultiSource))
+// exactly one source / none / optional as the use site demands; never several
+//@   ensures err == nil && opts.Params == ParamsRequired ==> result.Source != nil
+//@   ensures err == nil && opts.Params == ParamsNone ==> result.Source == nil
+//@   ensures err == nil && !opts.ParamsMultiSource ==> len(result.MultiSources) == 0
+//@   ensures err == nil ==> (result.Source == nil) == (forall j int :: 0 <= j && j < len(result.RawArgs) ==> !Plain(unboxed[*types.Signature](obj.Type()), opts, localOpts, j))
+//@   ensures err == nil && len(result.MultiSources) == 0 ==> (forall j int :: 0 <= j && j < len(result.RawArgs) ==> result.RawArgs[j].Use != ArgUseMultiSource)
+//@   ensures err == nil && len(result.MultiSources) == 0 ==> (forall j int, k int :: 0 <= k && k < j && j < len(result.RawArgs) ==>
+//@        !(Plain(unboxed[*types.Signature](obj.Type()), opts, localOpts, j) && Plain(unboxed[*types.Signature](obj.Type()), opts, localOpts, k)))
+// results
+//@   ensures err == nil ==> result.Target != nil
+//@   ensures err == nil ==> result.UpdateTarget == (opts.UpdateParam != "")
+//@   ensures err == nil ==> result.UpdateTarget == (exists j int :: 0 <= j && j < len(result.RawArgs) && IsTarget(unboxed[*types.Signature](obj.Type()), opts, j))
+//@   ensures err == nil && !result.UpdateTarget ==> (unboxed[*types.Signature](obj.Type()).Results().Len() == 1 || unboxed[*types.Signature](obj.Type()).Results().Len() == 2)
+//@   ensures err == nil && !result.UpdateTarget ==> result.ReturnError == (unboxed[*types.Signature](obj.Type()).Results().Len() == 2)
+//@   ensures err == nil && !result.UpdateTarget && result.ReturnError ==> isError(unboxed[*types.Signature](obj.Type()).Results().At(1))
+//@   ensures err == nil && result.UpdateTarget ==> unboxed[*types.Signature](obj.Type()).Results().Len() <= 1
+//@   ensures err == nil && result.UpdateTarget ==> result.ReturnError == (unboxed[*types.Signature](obj.Type()).Results().Len() == 1)
+//@   ensures err == nil && result.UpdateTarget && result.ReturnError ==> isError(unboxed[*types.Signature](obj.Type()).Results().At(0))
+//@   ensures err == nil && result.UpdateTarget ==> (exists j int :: 0 <= j && j < len(result.RawArgs) && result.RawArgs[j].Use == ArgUseTarget)
+// generics, naming, signature
+//@   ensures err == nil && !opts.AllowTypeParams ==> !result.TypeParams
+//@   ensures err == nil ==> result.Name == obj.Name() && result.Generated == opts.Generated && result.CustomCall == opts.CustomCall
+//@   ensures err == nil ==> result.Signature.Target == result.Target.String
+//@   ensures err == nil && result.Source != nil ==> result.Signature.Source == result.Source.String
+//@   ensures err == nil ==> result.Context != nil
+// loop: the processed prefix is classified
+//@   loop 1 invariant 0 <= i && i <= sig.Params().Len() && len(methodDef.RawArgs) == i
+//@   loop 1 invariant forall j int :: 0 <= j && j < i ==> methodDef.RawArgs[j].Name == PName(sig, j) && methodDef.RawArgs[j].Type != nil
+//@   loop 1 invariant forall j int :: 0 <= j && j < i ==> (IsIface(sig, opts, j) ==> methodDef.RawArgs[j].Use == ArgUseInterface)
+//@   loop 1 invariant forall j int :: 0 <= j && j < i ==> (IsTarget(sig, opts, j) ==> methodDef.RawArgs[j].Use == ArgUseTarget)
+//@   loop 1 invariant forall j int :: 0 <= j && j < i ==> (IsCtx(sig, opts, localOpts, j) ==> methodDef.RawArgs[j].Use == ArgUseContext)
+//@   loop 1 invariant forall j int :: 0 <= j && j < i ==> (Plain(sig, opts, localOpts, j) ==> methodDef.RawArgs[j].Use == ArgUseSource || methodDef.RawArgs[j].Use == ArgUseMultiSource)
+//@   loop 1 invariant (methodDef.Source == nil) == (forall j int :: 0 <= j && j < i ==> !Plain(sig, opts, localOpts, j))
+//@   loop 1 invariant forall j int :: 0 <= j && j < i && methodDef.RawArgs[j].Use == ArgUseMultiSource ==> len(methodDef.MultiSources) > 0
+//@   loop 1 invariant forall j int, k int :: 0 <= k && k < j && j < i && Plain(sig, opts, localOpts, j) && Plain(sig, opts, localOpts, k) ==> len(methodDef.MultiSources) > 0
+//@   loop 1 invariant methodDef.UpdateTarget == (exists j int :: 0 <= j && j < i && IsTarget(sig, opts, j))
+//@   loop 1 invariant methodDef.UpdateTarget ==> methodDef.Target != nil && sig.Results().Len() <= 1 && methodDef.ReturnError == (sig.Results().Len() == 1) && (methodDef.ReturnError ==> isError(sig.Results().At(0)))
+//@   loop 1 invariant methodDef.UpdateTarget ==> (exists j int :: 0 <= j && j < i && methodDef.RawArgs[j].Use == ArgUseTarget)
+//@   loop 1 invariant !methodDef.UpdateTarget ==> !methodDef.ReturnError
+//@   loop 1 invariant methodDef.Source != nil ==> methodDef.Signature.Source == methodDef.Source.String
+//@   loop 1 invariant methodDef.Name == obj.Name() && methodDef.Generated == opts.Generated && methodDef.CustomCall == opts.CustomCall
+//@   loop 1 invariant methodDef.Context != nil && isFresh(methodDef.Context)
+//@   loop 1 invariant methodDef.TypeParams == (sig.TypeParams().Len() > 0)
+//@   loop 1 decreases sig.Params().Len() - i
+
+// ---- C09 ----
+//@ func Index.GetAll
+//@   props C09
+//@   maprange 1 unordered-result items
+
+//@ func AvailableContextDebug
+//@   props C09
+//@   maprange 1 unordered-result lines
